@@ -223,6 +223,17 @@ theorem suppression_leaves_one_per_point (sortStart sortEnd : List Biogo.PalsOra
       (fun a b => (a.abpos, a.bbpos) ≠ (b.abpos, b.bbpos) ∧ (a.aepos, a.bepos) ≠ (b.aepos, b.bepos)) :=
   suppress_distinct sortStart sortEnd p2 s1 s2 segs
 
+/-- the seventh defect in the suppression model: the emission order `1, 2, 1` of the witness in
+    `corpus/C15.txt` is sorted by `Abpos` and by `Aepos` (both constant), so sorts that compare one
+    coordinate only may leave it as it is, and the hit `300..500 × 200..400` is returned twice;
+    a sort on both coordinates makes the copies neighbours -/
+example : suppress id id [⟨300, 200, 500, 400, 200⟩, ⟨300, 650, 500, 850, 200⟩, ⟨300, 200, 500, 400, 200⟩] =
+    [⟨300, 200, 500, 400, 200⟩, ⟨300, 650, 500, 850, 200⟩, ⟨300, 200, 500, 400, 200⟩] := by decide
+
+-- ordered by both coordinates the two copies are neighbours and one is removed
+example : suppress id id [⟨300, 200, 500, 400, 200⟩, ⟨300, 200, 500, 400, 200⟩, ⟨300, 650, 500, 850, 200⟩] =
+    [⟨300, 200, 500, 400, 200⟩, ⟨300, 650, 500, 850, 200⟩] := by decide
+
 open Biogo.Proofs.PalsKernelSound in
 /-- **`alignTraps_sound`** — one statement about the whole of `AlignTraps` (the model the driver
     runs and compares hit by hit with `dp.AlignTraps`: kernel on every trapezoid, acceptance test,
